@@ -189,9 +189,18 @@ def items(tier, seed):
     # non-critical ones
     yield from spaces.mk(['flat23'], force='product',
                          fargs={'parts': [('outcomes', {}),
+                                          ('mods', {'alts': [
+                                              [], [('top', 'k', 'nest'),
+                                                   ('top', 'critical', True)]]}),
                                           ('windows', {'values': [None, 1],
                                                        'allow_none': True})]},
-                         job_open={'dur': [2]}, top_open={'k': ['nest']},
+                         job_open={'dur': [2]}, top_open={},
+                         nest_open={}, k=1 if th else 0, maxF=2)
+    yield from spaces.mk(['nest22'], force='product',
+                         fargs={'parts': [('outcomes', {'where': 'n'}),
+                                          ('mods', {'alts': [
+                                              [('n', 'critical', True)]]})]},
+                         job_open={'dur': [2]}, top_open={},
                          nest_open={}, k=1 if th else 0, maxF=2)
     # verbose schedulers, exceptions whose message is empty
     yield from spaces.mk(['flat23', 'nest22'], force='mods',
